@@ -446,7 +446,9 @@ def classify(st, s, F, bad):
 def eval_dir(run, case, res, model_out=None):
     """model_out: {(state index, file): "SAME" | "DIFF"}"""
     mode = case["mode"]
-    rep0 = {"module": case["name"], "mode": mode, "opts": OPTS[mode], "source_file": res.get("fname"), "text": (res.get("text") or "")[:700]}
+    fn = res.get("fname") or ""
+    fn_short = fn if len(fn) < 60 else "padded_name(%d) = in/d…/m…x.asn1, %d characters (checks/c12_dir.py)" % (len(fn) - len("in/m.asn1"), len(fn))
+    rep0 = {"module": case["name"], "mode": mode, "opts": OPTS[mode], "source_file": fn_short, "text": (res.get("text") or "")[:700]}
     if "error" in res:
         run.violation("harness:outdir-size-steering", dict(rep0, what=res["error"]), no_input=True)
     if res.get("rc0") != 0:
@@ -469,7 +471,7 @@ def eval_dir(run, case, res, model_out=None):
         st, B, A = s["st"], s["before"], s["after"]
         label = st["label"]
         rep = dict(rep0, state=label, stale_ops=[[x if not isinstance(x, bytes) else "<%d bytes>" % len(x) for x in o] for o in st["ops"]][:8],
-                   replay_cmd="asn1c -S skeletons %s -D out %s  into an EMPTY out/ and into out/ prepared as described; compare the two directories" % (" ".join(OPTS[mode]), res["fname"]))
+                   replay_cmd="asn1c -S skeletons %s -D out %s  into an EMPTY out/ and into out/ prepared as described; compare the two directories" % (" ".join(OPTS[mode]), fn_short))
         if st.get("start_text"):
             rep["stale_made_by"] = "asn1c %s on: %s" % (" ".join(OPTS[st.get("start_mode", mode)]), st["start_text"][:400])
         if "prep_failed" in st:
